@@ -447,6 +447,32 @@ func subC09(out string, seed uint64, tier string, arg string) {
 	for idx := 0; idx < len(certs); idx++ {
 		order = append(order, certs[(idx*17+int(seed))%len(certs)])
 	}
+	// the one rule that reads the signature reads its length: certificates declaring an ECDSA algorithm with a signature
+	// BIT STRING of every length class that rule distinguishes (and beyond the largest), each then compared with
+	// same-length replacements like every other certificate
+	var resized []*Obj
+	for _, o := range append(append([]*Obj{}, front...), certs...) {
+		if len(resized) >= 18 {
+			break
+		}
+		if o.Cert == nil || !strings.Contains(strings.ToUpper(o.Cert.SignatureAlgorithm.String()), "ECDSA") {
+			continue
+		}
+		cd, err := ParseCertDER(o.DER)
+		if err != nil || string(cd.IssuerBytes()) == string(cd.SubjectBytes()) {
+			continue
+		}
+		for _, L := range []int{8, 72, 73, 104, 105, 139, 140, 200, 300} {
+			cd2, _ := ParseCertDER(o.DER)
+			cd2.SetSignature(rng.Bytes(L))
+			if m := parseObj("cert", fmt.Sprintf("%s~siglen%d", o.Name, L), cd2.Bytes()); m != nil {
+				resized = append(resized, m)
+			}
+		}
+	}
+	rep.count(fmt.Sprintf("resized-ecdsa-signatures:%d", len(resized)))
+	order = append(resized, order...)
+	limit += len(resized)
 	for idx := 0; idx < len(order) && n < limit; idx++ {
 		o := order[idx]
 		cd, err := ParseCertDER(o.DER)
